@@ -3,6 +3,7 @@ import Jp.Props.C04
 import Jp.Props.C11
 import Jp.Props.C12
 import Jp.Props.C13
+import Jp.Lemmas.C01Helpers
 /-
   C01 — Every pointer or token the safe API yields is valid RFC 6901 text.
   The invariant is `validPtr` / `validTok`; one lemma per public operation (given valid receivers
@@ -13,16 +14,18 @@ import Jp.Props.C13
 namespace Jp.C01
 open Jp Jp.Spec
 
-/-- the bytes of a span of `p` -/
-def slice (p : Bytes) (sp : Span) : Bytes := (p.drop sp.1).take (sp.2 - sp.1)
+-- def slice … : see Jp/Lemmas/C01Helpers.lean
+-- the bytes of a span of `p`
+--   def slice (p : Bytes) (sp : Span) : Bytes := (p.drop sp.1).take (sp.2 - sp.1)
 
-/-- the tokens a mutator call hands back -/
-def retTokens : BufRet → List Bytes
-  | .unit => []
-  | .popped (some t) => [t]
-  | .popped none => []
-  | .replaced (.ok (some t)) => [t]
-  | .replaced _ => []
+-- def retTokens … : see Jp/Lemmas/C01Helpers.lean
+-- the tokens a mutator call hands back
+--   def retTokens : BufRet → List Bytes
+--     | .unit => []
+--     | .popped (some t) => [t]
+--     | .popped none => []
+--     | .replaced (.ok (some t)) => [t]
+--     | .replaced _ => []
 
 -- OBLIGATIONS
 -- parse_ok_valid doors_ok_valid reparse_pointer reparse_token new_valid fromEncoded_ok_valid ofInt_valid
@@ -30,107 +33,6 @@ def retTokens : BufRet → List Bytes
 -- splitFront_valid splitBack_valid parent_valid splitAt_valid getBounds_valid getRanges_valid
 -- stripPrefix_valid stripSuffix_valid intersection_valid concat_valid withLeading_valid withTrailing_valid
 -- ofToken_valid ofUsize_valid bufStep_valid history_valid
-
-/-! ### helpers -/
-
-theorem span_valid (p : Bytes) (r : Option (Nat × Nat)) (sp : Span) (h : validPtr p = true)
-    (hr : ∀ a b, r = some (a, b) → a ≤ b ∧ b ≤ count p)
-    (hg : C12.spanOf p r = .ok (some sp)) : validPtr (slice p sp) = true := by
-  unfold C12.spanOf at hg
-  cases r with
-  | none => simp at hg
-  | some ab =>
-    obtain ⟨a, b⟩ := ab
-    obtain ⟨hab, hb⟩ := hr a b rfl
-    simp only [Option.map_some, Res.ok.injEq, Option.some.injEq] at hg
-    subst hg
-    unfold slice
-    simp only []
-    rw [C12.span_is_sublist p a b h hab hb]
-    apply validPtr_ofToks
-    intro t ht
-    exact tokens_valid h t (List.mem_of_mem_drop (List.mem_of_mem_take ht))
-
-theorem rangeSpec_bd (n a b x y : Nat) (h : rangeSpec n a b = some (x, y)) : x ≤ y ∧ y ≤ n := by
-  unfold rangeSpec at h; split at h <;> simp at h; omega
-
-theorem rangeFromSpec_bd (n a x y : Nat) (h : rangeFromSpec n a = some (x, y)) : x ≤ y ∧ y ≤ n := by
-  unfold rangeFromSpec at h; split at h <;> simp at h; omega
-
-theorem rangeToSpec_bd (n b x y : Nat) (h : rangeToSpec n b = some (x, y)) : x ≤ y ∧ y ≤ n := by
-  unfold rangeToSpec at h; split at h <;> simp at h; omega
-
-theorem rangeInclSpec_bd (n a b x y : Nat) (h : rangeInclSpec n a b = some (x, y)) : x ≤ y ∧ y ≤ n := by
-  unfold rangeInclSpec at h; split at h <;> simp at h; omega
-
-theorem rangeToInclSpec_bd (n b x y : Nat) (h : rangeToInclSpec n b = some (x, y)) : x ≤ y ∧ y ≤ n := by
-  unfold rangeToInclSpec at h; split at h <;> simp at h; omega
-
-theorem rangeFullSpec_bd (n x y : Nat) (h : rangeFullSpec n = some (x, y)) : x ≤ y ∧ y ≤ n := by
-  unfold rangeFullSpec at h; simp at h; omega
-
-theorem boundsSpec_bd (n : Nat) (lo hi : Bound) (x y : Nat) (h : boundsSpec n lo hi = some (x, y)) :
-    x ≤ y ∧ y ≤ n := by
-  cases lo with
-  | included s =>
-    cases hi with
-    | included e => exact rangeInclSpec_bd _ _ _ _ _ h
-    | excluded e => exact rangeSpec_bd _ _ _ _ _ h
-    | unbounded => exact rangeFromSpec_bd _ _ _ _ h
-  | excluded s =>
-    cases hi with
-    | included e =>
-      simp only [boundsSpec] at h; split at h
-      · exact rangeInclSpec_bd _ _ _ _ _ h
-      · simp at h
-    | excluded e =>
-      simp only [boundsSpec] at h; split at h
-      · exact rangeSpec_bd _ _ _ _ _ h
-      · simp at h
-    | unbounded =>
-      simp only [boundsSpec] at h; split at h
-      · exact rangeFromSpec_bd _ _ _ _ h
-      · simp at h
-  | unbounded =>
-    cases hi with
-    | included e => exact rangeToInclSpec_bd _ _ _ _ h
-    | excluded e => exact rangeToSpec_bd _ _ _ _ h
-    | unbounded => exact rangeFullSpec_bd _ _ _ h
-
-theorem retTokens_deque_valid (ts : List Bytes) (op : BufOp) (hv : ∀ t ∈ ts, validTok t = true) :
-    ∀ t ∈ retTokens (dequeStep ts op).2, validTok t = true := by
-  intro t ht
-  cases op with
-  | pushFront u => simp [dequeStep, retTokens] at ht
-  | pushBack u => simp [dequeStep, retTokens] at ht
-  | popFront =>
-    simp only [dequeStep] at ht
-    cases hh : ts.head? with
-    | none => simp [hh, retTokens] at ht
-    | some u =>
-      simp only [hh, retTokens, List.mem_singleton] at ht
-      subst ht
-      exact hv _ (List.mem_of_mem_head? (by simp [hh]))
-  | popBack =>
-    simp only [dequeStep] at ht
-    cases hh : ts.getLast? with
-    | none => simp [hh, retTokens] at ht
-    | some u =>
-      simp only [hh, retTokens, List.mem_singleton] at ht
-      subst ht
-      exact hv _ (List.mem_of_getLast? hh)
-  | append o => simp [dequeStep, retTokens] at ht
-  | replace i u =>
-    simp only [dequeStep] at ht
-    split at ht
-    · cases hh : ts[i]? with
-      | none => simp [hh, retTokens] at ht
-      | some w =>
-        simp only [hh, retTokens, List.mem_singleton] at ht
-        subst ht
-        exact hv _ (List.mem_of_getElem? hh)
-    · simp [retTokens] at ht
-  | clear => simp [dequeStep, retTokens] at ht
 
 theorem parse_ok_valid (s t : Bytes) (h : Pointer.parse s = .ok t) : validPtr t = true := by
   rw [C02.parse_ok_text s t h]
